@@ -139,7 +139,7 @@ def gen_history(seed, tier, classes=None, weights=None, n_ops=(6, 16),
                 max_handles=3, pre_p=0.4, dmax=6, fresh_p=0.0, dataset_kinds=None,
                 unknown=False, verbose_p=0.15, extras_p=0.5, share_p=0.3,
                 classifier_bias=1, cp_fit_p=0.25, cp_invalid_p=0.0, calib_invalid_p=0.25,
-                store_bias=1, tiny_scale_p=0.0, wide_p=0.0, grid_p=0.0, failfirst_p=0.05, crash_sweep_p=0.0):
+                store_bias=1, tiny_scale_p=0.0, wide_p=0.0, grid_p=0.0, failfirst_p=0.05, crash_sweep_p=0.0, buffer_p=0.0):
   r = substream(seed, "hist")
   if wide_p and substream(seed, "hist-wide").random() < wide_p:
     return gen_wide_history(seed)
@@ -223,6 +223,15 @@ def gen_history(seed, tier, classes=None, weights=None, n_ops=(6, 16),
       s.data = dk
     via = "indices" if (s.pre and r.random() < 0.6) else "formed"
     op = dict(op="fit", h=s.hid, data=dk, via=via)
+    if buffer_p and r.random() < buffer_p:
+      # the caller keeps one set of array objects per (dataset, kind of
+      # arguments) and refills them: same objects, other content (rows in
+      # another order; for formed data also other units, slightly moved)
+      op["buffer"] = "B:%s:%s" % (dk, SPEC[s.name]["kind"])
+      if r.random() < 0.8:
+        op["variant"] = dict(seed=r.randrange(10**6), perm=r.choice([None, r.randrange(10**6)]),
+                             scale=r.choice([1.0, 0.25, 0.5, 2.0, 3.0, 10.0]),
+                             noise=r.choice([0.0, 0.01, 0.05]))
     ex = fit_extras(s.name, r, D, extras_p)
     if s.name in PAIRS and r.random() < cp_fit_p:
       ex["calibration_params"] = gen_cp(r, r.random() < cp_invalid_p)
